@@ -7,10 +7,13 @@ m={'pipe.go':'C01 C02 C03 C04 C05 C06 C07 C08 C09 C11 C12 C14 C24 C25 C26 C27 C2
  'retry.go':'C05 C28','mux.go':'C04 C11 C24 C25 C29','sentinel.go':'C03 C21 C23 C28 C47','standalone.go':'C03 C21 C28 C33',
  'resp.go':'C12 C13 C14 C29','message.go':'C15 C16 C17','helper.go':'C11 C22 C31 C46 C16','pubsub.go':'C26','url.go':'C44',
  'binary.go':'C45','lua.go':'C30','internal/cmds/cmds.go':'C08 C14 C18 C32 C33','internal/cmds/builder.go':'C18 C32 C33','internal/cmds/slot.go':'C18'}
-props=set()
+props=set(); unknown=False
 for l in open(sys.argv[1]):
     g=re.match(r'\+\+\+ b/(.*)',l)
     if g:
         f=g.group(1).strip()
+        if f.endswith('_test.go'): continue
+        if f not in m: unknown=True
         props|=set(m.get(f,'').split())
-print(' '.join(sorted(props)))
+# a file the table does not know: print nothing, the caller then runs every property
+print('' if unknown else ' '.join(sorted(props)))
